@@ -806,7 +806,7 @@ func constToValue(c constant.Value, t types.Type) (Value, bool) {
 
 func mapKey(v Value) interface{} {
 	switch k := v.(type) {
-	case string, int64, bool:
+	case string, int64, bool, U64:
 		return k
 	case *StructV:
 		// struct keys (unused by the generator today) are keyed by rendering
@@ -831,6 +831,14 @@ func equal(a, b Value) bool {
 	case float64:
 		y, ok := b.(float64)
 		return ok && x == y
+	case U64:
+		switch y := b.(type) {
+		case U64:
+			return x == y
+		case int64:
+			return y >= 0 && uint64(y) == uint64(x)
+		}
+		return false
 	case *Ptr:
 		if isNil(b) {
 			return false
